@@ -71,17 +71,11 @@ Qed.
 Lemma filter_sub : forall A (f : A -> bool) l, sub (filter f l) l.
 Proof. induction l; simpl; [apply sub_nil|]. destruct (f a); [apply sub_keep | apply sub_skip]; auto. Qed.
 
-Lemma remove_metas_sub : forall fx l dels, sub (remove_metas fx dels l) l.
+Lemma remove_metas_sub : forall l dels, sub (remove_metas dels l) l.
 Proof.
-  intros fx l. remember (length l) as n. revert l Heqn.
-  induction n using lt_wf_ind. intros. destruct l as [|x r]; simpl; [apply sub_nil|].
+  induction l; simpl; intros; [apply sub_nil|].
   destruct dels as [|d ds]; [apply sub_refl|].
-  destruct (e_id x =? d)%N.
-  - destruct fx.
-    + apply sub_skip. eapply H; [|reflexivity]. simpl in Heqn. lia.
-    + destruct r as [|y r']; [apply sub_nil_l|].
-      apply sub_skip. apply sub_keep. eapply H; [|reflexivity]. simpl in Heqn. lia.
-  - apply sub_keep. eapply H; [|reflexivity]. simpl in Heqn. lia.
+  destruct (e_id a =? d)%N; [apply sub_skip | apply sub_keep]; auto.
 Qed.
 
 (* ------------------------------------------------------------------ lookups *)
@@ -118,49 +112,37 @@ Qed.
 Lemma set_alias_name : forall d r, name_pres (fun x => set_alias x d r).
 Proof. intros d r e. reflexivity. Qed.
 
-Lemma resolve_keys : forall fuel l base id, keys (fst (fst (resolve fuel l base id))) = keys l.
+Lemma resolve_keys : forall fuel depth l base id, keys (fst (resolve fuel depth l base id)) = keys l.
 Proof.
   induction fuel; simpl; intros; auto.
   destruct (by_id l id); auto.
   destruct (find_nd l (alias_tgt e)); simpl; [|apply keys_upd_id, set_alias_name].
   destruct (is_alias e0); simpl; [|apply keys_upd_id, set_alias_name].
   destruct (e_dist e0); simpl; [apply keys_upd_id, set_alias_name|].
-  destruct (e_id e0 =? base)%N; simpl; [apply keys_upd_id, set_alias_name|].
-  specialize (IHfuel l base (e_id e0)).
-  destruct (resolve fuel l base (e_id e0)) as [[l' r] ov]. simpl in *.
+  destruct ((e_id e0 =? base)%N || Nat.leb (length l) depth); simpl; [apply keys_upd_id, set_alias_name|].
+  specialize (IHfuel (S depth) l base (e_id e0)).
+  destruct (resolve fuel (S depth) l base (e_id e0)) as [l' r]. simpl in *.
   rewrite keys_upd_id; auto. apply set_alias_name.
 Qed.
 
-Definition ua_step (acc : list entry * bool) (id : N) : list entry * bool :=
-  let '(cur, ov) := acc in
-  match by_id cur id with
-  | Some e =>
-      if is_alias e && negb (e_dir e) then
-        let '(cur', _, ov') := resolve (S (S (length cur))) cur id id in (cur', ov || ov')
-      else acc
-  | None => acc
-  end.
-
-Lemma ua_step_keys : forall acc id, keys (fst (ua_step acc id)) = keys (fst acc).
+Lemma ua_step_keys : forall cur id, keys (ua_step cur id) = keys cur.
 Proof.
-  intros [cur ov] id. unfold ua_step.
+  intros. unfold ua_step.
   destruct (by_id cur id); auto. destruct (is_alias e && negb (e_dir e)); auto.
-  pose proof (resolve_keys (S (S (length cur))) cur id id).
-  destruct (resolve (S (S (length cur))) cur id id) as [[c' r] o]. simpl in *. auto.
+  apply resolve_keys.
 Qed.
 
-Lemma ua_fold_keys : forall ids acc, keys (fst (fold_left ua_step ids acc)) = keys (fst acc).
+Lemma ua_fold_keys : forall ids cur, keys (fold_left ua_step ids cur) = keys cur.
 Proof.
   induction ids; simpl; intros; auto. rewrite IHids. apply ua_step_keys.
 Qed.
 
-Lemma update_aliases_keys : forall reset l, keys (fst (update_aliases reset l)) = keys l.
+Lemma update_aliases_keys : forall reset l, keys (update_aliases reset l) = keys l.
 Proof.
   intros. unfold update_aliases.
   set (l0 := if reset then _ else l).
   assert (K0 : keys l0 = keys l).
   { unfold l0. destruct reset; auto. apply keys_map. intro e. destruct (is_alias e); auto. }
-  change (keys (fst (fold_left ua_step (map e_id l0) (l0, false))) = keys l).
   rewrite ua_fold_keys. auto.
 Qed.
 
@@ -168,8 +150,7 @@ Arguments update_aliases : simpl never.
 
 Lemma with_aliases_keys : forall s r ok, keys (s_ents (fst (with_aliases s r ok))) = keys (s_ents s).
 Proof.
-  intros. unfold with_aliases. pose proof (update_aliases_keys r (s_ents s)).
-  destruct (update_aliases r (s_ents s)). simpl in *. auto.
+  intros. unfold with_aliases. simpl. apply update_aliases_keys.
 Qed.
 
 Lemma sorted_with_aliases : forall s r ok, SortedS s -> SortedS (fst (with_aliases s r ok)).
@@ -187,23 +168,21 @@ Qed.
 Lemma inval_of_keys : forall l id, keys (inval_of l id) = keys l.
 Proof. intros. apply keys_upd_id. intro; reflexivity. Qed.
 
-Lemma sorted_do_insert : forall c s P link inval setpar e,
+Lemma sorted_do_insert : forall s P e,
   SortedS s -> find_nd (s_ents s) (e_name e) = None ->
-  SortedS (do_insert c s P link inval setpar e).
+  SortedS (do_insert s P e).
 Proof.
   unfold SortedS, do_insert. intros.
-  set (e' := if setpar then _ else e).
-  assert (N : e_name e' = e_name e) by (unfold e'; destruct setpar; auto).
+  set (e' := set_par e _).
+  assert (N : e_name e' = e_name e) by reflexivity.
   rewrite N.
   destruct (find_nd_none _ _ H H0) as (u & F).
   assert (S1 : Sorted_names (keys (insert_at (ins_point (s_ents s) (e_name e)) e' (s_ents s)))).
   { rewrite keys_insert. rewrite N. unfold ins_point. rewrite F. apply insert_sorted; auto. }
-  set (l1 := insert_at _ e' (s_ents s)) in *.
-  set (l2 := match P with Some p => if link then upd_id l1 (e_id p) _ else l1 | None => l1 end).
-  assert (K2 : keys l2 = keys l1).
-  { unfold l2. destruct P; auto. destruct link; auto. apply keys_upd_id. intro; reflexivity. }
-  destruct inval; [destruct P|]; simpl; try rewrite inval_of_keys; rewrite K2; auto.
+  destruct P; simpl; auto. rewrite keys_upd_id by (intro; reflexivity). auto.
 Qed.
+
+Opaque with_aliases do_insert add_ref.
 
 (* ------------------------------------------------------------------ add *)
 Ltac brk :=
@@ -212,8 +191,8 @@ Ltac brk :=
          | |- context[if ?x then _ else _] => destruct x eqn:?; simpl; auto
          end.
 
-Lemma sorted_go_add : forall c s ty hid ins scs v P full sb fr,
-  SortedS s -> SortedS (fst (add_go c s ty hid ins scs v P full sb fr)).
+Lemma sorted_go_add : forall s ty hid ins scs v P full sb fr,
+  SortedS s -> SortedS (fst (add_go s ty hid ins scs v P full sb fr)).
 Proof.
   intros. unfold add_go. destruct (find_nd (s_ents s) full) eqn:F; simpl; auto.
   destruct (negb (valid_name sb)); simpl; auto.
@@ -222,8 +201,8 @@ Proof.
   apply sorted_do_insert; auto.
 Qed.
 
-Lemma sorted_add : forall c s viaspec parent nm ty frag hid ins scs v,
-  SortedS s -> SortedS (fst (op_add c s viaspec parent nm ty frag hid ins scs v)).
+Lemma sorted_add : forall s viaspec parent nm ty frag hid ins scs v,
+  SortedS s -> SortedS (fst (op_add s viaspec parent nm ty frag hid ins scs v)).
 Proof.
   intros. unfold op_add. destruct viaspec.
   - destruct (negb (ty =? T_CONST)%N || negb (valid_name nm)); simpl; auto.
@@ -249,16 +228,16 @@ Proof.
       * destruct (e_meta e); simpl; auto. apply sorted_go_add; auto.
 Qed.
 
-Lemma sorted_go_alias : forall c s tgt P full sb fr,
-  SortedS s -> SortedS (fst (alias_go c s tgt P full sb fr)).
+Lemma sorted_go_alias : forall s tgt P full sb fr,
+  SortedS s -> SortedS (fst (alias_go s tgt P full sb fr)).
 Proof.
   intros. unfold alias_go. destruct (negb (valid_name sb)); simpl; auto.
   destruct (find_nd (s_ents s) full) eqn:F; simpl; auto.
   apply sorted_with_aliases. apply sorted_do_insert; auto.
 Qed.
 
-Lemma sorted_alias : forall c s parent nm tgt frag,
-  SortedS s -> SortedS (fst (op_alias c s parent nm tgt frag)).
+Lemma sorted_alias : forall s parent nm tgt frag,
+  SortedS s -> SortedS (fst (op_alias s parent nm tgt frag)).
 Proof.
   intros. unfold op_alias. destruct (NFRAG <=? frag)%N; simpl; auto.
   destruct parent.
@@ -285,13 +264,18 @@ Proof.
   destruct bad; simpl; auto. rewrite IHids. auto.
 Qed.
 
-Lemma clear_one_pres : forall deref dels j, e_name (clear_one deref dels j) = e_name j.
+Lemma clear_derived_pres : forall d j, e_name (clear_derived d j) = e_name j.
+Proof.
+  intros. unfold clear_derived. destruct (is_alias j); auto.
+  destruct (e_dist j); auto. destruct (n =? e_id d)%N; auto.
+Qed.
+
+Lemma clear_one_pres : forall c deref dels j, e_name (clear_one c deref dels j) = e_name j.
 Proof.
   unfold clear_one. induction dels; simpl; intros; auto.
   rewrite IHdels.
-  destruct (is_constlike a && deref); auto.
-  destruct (is_alias j); auto.
-  destruct (e_dist j); auto. destruct (n =? e_id a)%N; auto.
+  destruct (is_constlike a && deref); [|apply clear_derived_pres].
+  destruct (fx_derefclear c); auto. rewrite clear_derived_pres. auto.
 Qed.
 
 Arguments check_all : simpl never.
@@ -311,14 +295,9 @@ Proof.
   { unfold chk. destruct (N.testbit flags 3); auto. apply check_all_keys. }
   clearbody chk. destruct chk as [l1 refused]. simpl in K1.
   destruct refused; [change (Sorted_names (keys l1)); rewrite K1; auto|].
-  (* the reference fix-up does not touch the entries *)
-  match goal with |- context[map (clear_one ?dr ?dl) (s_ents ?s2)] => set (S2 := s2); set (l3 := map (clear_one dr dl) (s_ents S2)) end.
-  assert (E2 : s_ents S2 = l1).
-  { unfold S2. destruct (e_ty E =? T_RAW)%N; auto.
-    match goal with |- context[match ?r with Some _ => _ | None => _ end] => destruct r end; simpl; auto.
-    destruct (fx_delref c); simpl; auto.
-    match goal with |- context[match ?r with Some _ => _ | None => _ end] => destruct r end; simpl; auto.
-    destruct (_ =? _)%N; auto. }
+  destruct (del_refs l1 E (s_ref s) (s_fref s)) as [rf' fr'].
+  match goal with |- context[map (clear_one c ?dr ?dl) (s_ents ?s2)] => set (S2 := s2); set (l3 := map (clear_one c dr dl) (s_ents S2)) end.
+  assert (E2 : s_ents S2 = l1) by reflexivity.
   assert (K3 : keys l3 = keys (s_ents s)).
   { unfold l3. rewrite keys_map by (intro; apply clear_one_pres). rewrite E2. auto. }
   destruct (e_meta E).
@@ -330,7 +309,7 @@ Proof.
 Qed.
 
 (* ------------------------------------------------------- move, hide, list *)
-Lemma sorted_move : forall c s nm frag, SortedS s -> SortedS (fst (op_move c s nm frag)).
+Lemma sorted_move : forall s nm frag, SortedS s -> SortedS (fst (op_move s nm frag)).
 Proof.
   intros. unfold op_move. destruct (find_nd (s_ents s) nm); simpl; auto.
   destruct (e_ty e =? T_INDEX)%N; simpl; auto. destruct (NFRAG <=? frag)%N; simpl; auto.
@@ -344,12 +323,12 @@ Proof.
   simpl. apply inval_of_keys.
 Qed.
 
-Lemma sorted_hide : forall c s nm h, SortedS s -> SortedS (fst (op_hide c s nm h)).
+Lemma sorted_hide : forall s nm h, SortedS s -> SortedS (fst (op_hide s nm h)).
 Proof.
   intros. unfold op_hide. destruct (find_nd (s_ents s) nm); simpl; auto.
   destruct (eqb (e_hid e) h); simpl; auto.
-  unfold SortedS. destruct (fx_hide c); [rewrite inval_container_keys|]; simpl;
-    rewrite keys_upd_id by (intro; reflexivity); auto.
+  unfold SortedS. rewrite inval_container_keys. simpl.
+  rewrite keys_upd_id by (intro; reflexivity); auto.
 Qed.
 
 Lemma sorted_list : forall s parent sel flags, SortedS s -> SortedS (fst (op_list s parent sel flags)).
@@ -382,7 +361,6 @@ Definition rename_clean (s : state) (nm new : name) (flags : N) : Prop :=
   forall E full, find_nd (s_ents s) nm = Some E ->
     (if e_meta E then match by_oid (s_ents s) (e_par E) with Some P => Some (e_name P ++ SLASH :: new) | None => None end
      else Some new) = Some full ->
-    find_da (s_ents s) full = None ->
     NoDup (keys (renamed_table s E full flags)).
 
 Lemma sorted_ren : forall c s nm new flags, SortedS s -> rename_clean s nm new flags ->
@@ -393,18 +371,16 @@ Proof.
   destruct (e_ty E =? T_INDEX)%N; simpl; auto.
   destruct (negb (valid_code new)); simpl; auto.
   match goal with |- context[match ?pn with Some full => _ | None => _ end] => destruct pn as [full|] eqn:PN end; simpl; auto.
-  destruct (find_da (s_ents s) full) as [Q|] eqn:FD; simpl.
+  match goal with |- context[match ?q with Some Q => _ | None => _ end] => destruct q as [Q|] end; simpl.
   - destruct (e_id Q =? e_id E)%N; simpl; auto.
   - apply sorted_with_aliases.
-    specialize (HC E full FE PN FD).
+    specialize (HC E full FE PN).
     assert (KS : Sorted_names (keys (resort e_name (renamed_table s E full flags)))).
     { apply (resort_sorted e_name). exact HC. }
     unfold renamed_table in KS.
     unfold SortedS.
-    destruct (fx_rencache c); destruct (e_meta E); simpl;
+    destruct (e_meta E); simpl;
       try rewrite inval_container_keys; simpl; try rewrite inval_of_keys; simpl; try exact KS.
-    all: unfold inval_container; simpl; rewrite ?PN.
-    all: try (destruct (e_par E); simpl; try rewrite inval_of_keys; exact KS).
 Qed.
 
 (* -------------------------------------------------------------------- step *)
